@@ -95,7 +95,7 @@ WAVE3_NOTE = {
     "C02": "PES/PSI-shaped payload data; Create with a window of a caller-owned option slice, then all of it; zero-length data as nil and as empty; an option that itself creates packets; adaptation-field flag options; own windows with clipped capacity and windows of the whole packet; packet and data as views of one larger buffer; WithPES after every combination of flag options",
     "C03": "setter data sits in a caller buffer with live bytes behind it; the packet's own adaptation field handed back to SetAdaptationField; sources with an empty adaptation field; a bystander packet; own windows with clipped capacity; nil and empty-field sources of SetAdaptationField",
     "C04": "decoders handed slices longer than the field; non-value bits of the PTS/DTS fields inside a PES header flipped; PES headers cut by the packet payload; variant 'concurrent' (8 goroutines on their own buffers); WithPES at a unit start after every combination of flag options; clock / splice / private-data combinations in exactly fitting fields",
-    "C05": "decoder allocation budget (64 KiB + 128 bytes per input byte, exact TotalAlloc deltas) and whole-sequence budget; segmentation descriptors cut inside consistent outer lengths; printed text inspected for fmt-swallowed panics; the filter's PID list compared afterwards; more than 64 KiB behind tiny sections; stack growth budget (256 KiB + 8 bytes per input byte); 16..256 KiB of three-byte sections",
+    "C05": "decoder allocation budget (64 KiB + 128 bytes per input byte, exact TotalAlloc deltas) and whole-sequence budget; segmentation descriptors cut inside consistent outer lengths; printed text inspected for fmt-swallowed panics; the filter's PID list compared afterwards; more than 64 KiB behind tiny sections; stack growth budget (4 MiB + 8 bytes per input byte); 64 KiB..1 MiB of three-byte sections",
     "C06": "program map sections in front of the subject section; pointer_field up to 255 for the payload-level API; sections of up to 4093 bytes in front of the PMT; codec-announcing descriptors on private streams; codec descriptors; other-PID packets carrying a complete PAT; payloads of exactly 188 bytes behind pointer_field 0x47; bufio readers the caller reads on from (table compared again)",
     "C07": "free section_number/last_section_number and a second, different PID-0 packet later in the stream; pointer_field > 0; IsPMT through a PAT view that hides one program; bufio readers the caller reads on from (table compared again); PAT sections on other PIDs",
     "C08": "sibling descriptors (same type, event id, segment numbers); alignment_stuffing bytes in decoder inputs; pointer_field up to 255; what the pointer_field skips (section tails, section-head-shaped bytes); short foreign sections / descriptors as negatives",
